@@ -368,9 +368,9 @@ def check_requests(reqs, pats, stats, findings, broken, samples, dense_lines, nd
 
 class C19:
     id = 'C19'
-    props_files = ['SmoothProps/C19.lean']
-    props_module = 'SmoothProps.C19'
-    lean_targets = ['SmoothProps.C19']
+    props_files = ['SmoothProps/C19.lean', 'SmoothProps/SrcTieLogicC19.lean']
+    props_module = 'SmoothProps.C19All'
+    lean_targets = ['SmoothProps.C19All']
     translators = [gen_sparse_patterns]
     rule = ('harness/sparse.cpp: 17 catalogued types (SO2 SO3 SE2 SE3 C1 R3 Galilei SE_K_3<2>, 9 Bundles incl. commutative and nested) x '
             '{double,float} x {ad, dr_exp, dr_expinv, d2r_exp, d2r_expinv}_sparse x tangent strata {zero, single-axis, series branch, '
